@@ -1,5 +1,6 @@
 import SnaxVerif.Model.Scheduler
-/-! Soundness of the exact matcher: every acceptance is backed by re-checked integer witnesses. -/
+/-! Exactness of the certifying matcher: every `true` is backed by a re-checked integer combination, every
+`false` by a re-checked orthogonal vector. -/
 namespace SnaxVerif.Sched
 open List
 
@@ -16,42 +17,204 @@ theorem sameRowSpaceB_sound (T P : List Vec) (h : sameRowSpaceB T P = true) : Sa
   simp only [Bool.and_eq_true, all_eq_true] at h
   exact ⟨fun v hv => inSpanB_sound P v (h.1 v hv), fun v hv => inSpanB_sound T v (h.2 v hv)⟩
 
+/-! ### the orthogonality certificate -/
+
+theorem vdot_vscale (c : Int) : ∀ (v y : Vec), vdot (vscale c v) y = c * vdot v y
+  | [], y => by simp [vscale, vdot]
+  | _ :: _, [] => by simp [vscale, vdot]
+  | a :: v, b :: y => by
+    have ih := vdot_vscale c v y
+    simp only [vscale, map_cons, vdot] at ih ⊢
+    rw [ih, Int.mul_add, Int.mul_assoc]
+
+theorem vdot_vadd : ∀ (a b y : Vec), a.length = b.length → vdot (vadd a b) y = vdot a y + vdot b y
+  | [], [], y, _ => by simp [vadd, vdot]
+  | [], _ :: _, _, h => by simp at h
+  | _ :: _, [], _, h => by simp at h
+  | x :: a, z :: b, [], _ => by simp [vadd, vdot]
+  | x :: a, z :: b, w :: y, h => by
+    have ih := vdot_vadd a b y (by simpa using h)
+    simp only [vadd, zipWith_cons_cons, vdot] at ih ⊢
+    rw [ih, Int.add_mul]
+    omega
+
+theorem vdot_replicate_zero (n : Nat) : ∀ (y : Vec), vdot (List.replicate n 0) y = 0 := by
+  induction n with
+  | zero => intro y; simp [vdot]
+  | succ n ih =>
+    intro y
+    cases y with
+    | nil => simp [List.replicate_succ, vdot]
+    | cons b y => simp [List.replicate_succ, vdot, ih y]
+
+theorem length_comb (n : Nat) : ∀ (w : Vec) (P : List Vec), (∀ p ∈ P, p.length = n) → (comb n w P).length = n
+  | [], _, _ => by simp [comb]
+  | _ :: _, [], _ => by simp [comb]
+  | c :: w, p :: P, h => by
+    have ih := length_comb n w P (fun q hq => h q (mem_cons_of_mem _ hq))
+    simp [comb, vadd, vscale, ih, h p (by simp)]
+
+theorem vdot_comb (n : Nat) (y : Vec) : ∀ (w : Vec) (P : List Vec), (∀ p ∈ P, p.length = n) →
+    (∀ p ∈ P, vdot p y = 0) → vdot (comb n w P) y = 0
+  | [], _, _, _ => by simp [comb, vdot_replicate_zero]
+  | _ :: _, [], _, _ => by simp [comb, vdot_replicate_zero]
+  | c :: w, p :: P, hl, ho => by
+    have ih := vdot_comb n y w P (fun q hq => hl q (mem_cons_of_mem _ hq)) (fun q hq => ho q (mem_cons_of_mem _ hq))
+    have hlen : (vscale c p).length = (comb n w P).length := by
+      rw [length_comb n w P (fun q hq => hl q (mem_cons_of_mem _ hq))]
+      simp [vscale, hl p (by simp)]
+    simp only [comb]
+    rw [vdot_vadd _ _ _ hlen, vdot_vscale, ho p (by simp), ih]
+    simp
+
+/-- a vector orthogonal to all rows of `P` but not to `v` refutes membership of `v` in the rational span -/
+theorem nonMemberB_sound (P : List Vec) (v y : Vec) (h : nonMemberB P v y = true) : ¬ InSpan P v := by
+  unfold nonMemberB at h
+  simp only [Bool.and_eq_true, beq_iff_eq, all_eq_true, bne_iff_ne, ne_eq] at h
+  obtain ⟨⟨⟨_, hl⟩, ho⟩, hv⟩ := h
+  rintro ⟨c, w, hc, heq⟩
+  have h1 : vdot (vscale c v) y = 0 := by
+    rw [heq]; exact vdot_comb v.length y w P hl ho
+  rw [vdot_vscale] at h1
+  rcases Int.mul_eq_zero.mp h1 with h0 | h0
+  · exact hc h0
+  · exact hv h0
+
+theorem spanDecide_exact (P : List Vec) (v : Vec) (b : Bool) (h : spanDecide P v = some b) :
+    (b = true ↔ InSpan P v) := by
+  unfold spanDecide at h
+  split at h
+  · next hin =>
+    simp only [Option.some.injEq] at h
+    subst h
+    exact ⟨fun _ => inSpanB_sound P v hin, fun _ => rfl⟩
+  · split at h
+    · next y _ =>
+      split at h
+      · next hnm =>
+        simp only [Option.some.injEq] at h
+        subst h
+        exact ⟨(fun hf => by cases hf), fun hs => absurd hs (nonMemberB_sound P v y hnm)⟩
+      · cases h
+    · cases h
+
+theorem combineDecisions_exact (ds : List (Option Bool)) (b : Bool) (h : combineDecisions ds = some b) :
+    (b = true ↔ ∀ d ∈ ds, d = some true) ∧ (b = false → ∃ d ∈ ds, d = some false) := by
+  unfold combineDecisions at h
+  split at h
+  · next hany =>
+    simp only [Option.some.injEq] at h
+    subst h
+    obtain ⟨d, hd, hdf⟩ := List.any_eq_true.mp hany
+    have hdf' : d = some false := by simpa using hdf
+    refine ⟨⟨(fun hf => by cases hf), fun hall => ?_⟩, fun _ => ⟨d, hd, hdf'⟩⟩
+    have := hall d hd
+    rw [hdf'] at this
+    cases this
+  · split at h
+    · next hall =>
+      simp only [Option.some.injEq] at h
+      subst h
+      refine ⟨⟨fun _ d hd => ?_, fun _ => rfl⟩, fun hf => by cases hf⟩
+      have := List.all_eq_true.mp hall d hd
+      simpa using this
+    · cases h
+
+/-- **the row-space comparison is exact whenever it answers** -/
+theorem sameRowSpaceD_exact (T P : List Vec) (b : Bool) (h : sameRowSpaceD T P = some b) :
+    (b = true ↔ SameRowSpace T P) := by
+  unfold sameRowSpaceD at h
+  obtain ⟨h1, h2⟩ := combineDecisions_exact _ b h
+  constructor
+  · intro hb
+    have hall := h1.mp hb
+    refine ⟨fun v hv => ?_, fun v hv => ?_⟩
+    · have := hall (spanDecide P v) (mem_append.mpr (Or.inl (mem_map.mpr ⟨v, hv, rfl⟩)))
+      exact (spanDecide_exact P v true this).mp rfl
+    · have := hall (spanDecide T v) (mem_append.mpr (Or.inr (mem_map.mpr ⟨v, hv, rfl⟩)))
+      exact (spanDecide_exact T v true this).mp rfl
+  · intro hs
+    cases b with
+    | true => rfl
+    | false =>
+      obtain ⟨d, hd, hdf⟩ := h2 rfl
+      rcases mem_append.mp hd with hd | hd
+      · obtain ⟨v, hv, rfl⟩ := mem_map.mp hd
+        have := (spanDecide_exact P v false hdf).mpr (hs.1 v hv)
+        cases this
+      · obtain ⟨v, hv, rfl⟩ := mem_map.mp hd
+        have := (spanDecide_exact T v false hdf).mpr (hs.2 v hv)
+        cases this
+
 /-- the rows of the template operand that take part (outer rows are broadcast) -/
 def tRows (tp sp : Operand) : List Vec := tp.rows.drop (tp.rows.length - sp.rows.length)
 /-- the rows of the schedule operand restricted to the template's dims -/
 def sRows (tn n : Nat) (sp : Operand) : List Vec := if n > tn then sp.rows.map (lastN tn) else sp.rows
 
-theorem matchOp_sound (tn n : Nat) (tp sp : Operand) (h : matchOp tn n tp sp = .ok true) :
-    tn ≤ n ∧ SameRowSpace (tRows tp sp) (sRows tn n sp) := by
+theorem decisionE_ok {d : Option Bool} {b : Bool} (h : decisionE d = .ok b) : d = some b := by
+  cases d with
+  | none => simp [decisionE] at h
+  | some x => simpa [decisionE] using h
+
+/-- what `TemplatePattern.matches` is supposed to decide for one operand -/
+def OperandFits (tn n : Nat) (tp sp : Operand) : Prop := tn ≤ n ∧ SameRowSpace (tRows tp sp) (sRows tn n sp)
+
+theorem matchOp_exact (tn n : Nat) (tp sp : Operand) (b : Bool) (h : matchOp tn n tp sp = .ok b) :
+    (b = true ↔ OperandFits tn n tp sp) := by
   unfold matchOp at h
-  unfold tRows sRows
+  unfold OperandFits tRows sRows
   split at h
   · next hgt =>
     split at h
     · simp at h
-    · simp only [Except.ok.injEq] at h
+    · have := sameRowSpaceD_exact _ _ b (decisionE_ok h)
       simp only [hgt, if_true]
-      exact ⟨by omega, sameRowSpaceB_sound _ _ h⟩
+      exact ⟨fun hb => ⟨by omega, this.mp hb⟩, fun hs => this.mpr hs.2⟩
   · next hgt =>
     split at h
-    · simp at h
-    · simp only [Except.ok.injEq] at h
+    · next hlt =>
+      simp only [Except.ok.injEq] at h
+      subst h
+      exact ⟨(fun hf => by cases hf), fun hs => by omega⟩
+    · have := sameRowSpaceD_exact _ _ b (decisionE_ok h)
       simp only [hgt, if_false]
-      exact ⟨by omega, sameRowSpaceB_sound _ _ h⟩
+      exact ⟨fun hb => ⟨by omega, this.mp hb⟩, fun hs => this.mpr hs.2⟩
 
-theorem matchOps_sound (tn n : Nat) : ∀ (ts ss : List Operand), matchOps tn n ts ss = .ok true →
-    ∀ p ∈ ts.zip ss, tn ≤ n ∧ SameRowSpace (tRows p.1 p.2) (sRows tn n p.2)
-  | [], _, _, p, hp => by simp at hp
-  | _ :: _, [], _, p, hp => by simp at hp
-  | tp :: ts, sp :: ss, h, p, hp => by
+theorem matchOp_sound (tn n : Nat) (tp sp : Operand) (h : matchOp tn n tp sp = .ok true) :
+    tn ≤ n ∧ SameRowSpace (tRows tp sp) (sRows tn n sp) := (matchOp_exact tn n tp sp true h).mp rfl
+
+theorem matchOps_exact (tn n : Nat) : ∀ (ts ss : List Operand) (b : Bool), matchOps tn n ts ss = .ok b →
+    (b = true ↔ ∀ p ∈ ts.zip ss, OperandFits tn n p.1 p.2)
+  | [], _, b, h => by
+    simp only [matchOps, Except.ok.injEq] at h
+    subst h; simp
+  | _ :: _, [], b, h => by
+    simp only [matchOps, Except.ok.injEq] at h
+    subst h; simp
+  | tp :: ts, sp :: ss, b, h => by
     unfold matchOps at h
     split at h
     · simp at h
-    · simp at h
     · next hm =>
-      simp only [zip_cons_cons, mem_cons] at hp
-      rcases hp with rfl | hp
-      · exact matchOp_sound tn n tp sp hm
-      · exact matchOps_sound tn n ts ss h p hp
+      simp only [Except.ok.injEq] at h
+      subst h
+      refine ⟨(fun hf => by cases hf), fun hall => ?_⟩
+      have := (matchOp_exact tn n tp sp false hm).mpr (hall (tp, sp) (by simp))
+      cases this
+    · next hm =>
+      have ih := matchOps_exact tn n ts ss b h
+      have h0 := (matchOp_exact tn n tp sp true hm).mp rfl
+      constructor
+      · intro hb p hp
+        simp only [zip_cons_cons, mem_cons] at hp
+        rcases hp with rfl | hp
+        · exact h0
+        · exact ih.mp hb p hp
+      · intro hall
+        exact ih.mpr (fun p hp => hall p (by simp [hp]))
+
+theorem matchOps_sound (tn n : Nat) (ts ss : List Operand) (h : matchOps tn n ts ss = .ok true) :
+    ∀ p ∈ ts.zip ss, tn ≤ n ∧ SameRowSpace (tRows p.1 p.2) (sRows tn n p.2) :=
+  (matchOps_exact tn n ts ss true h).mp rfl
 
 end SnaxVerif.Sched
